@@ -141,27 +141,27 @@ fn avx2() -> Pipeline<Dna, Avx2> {
     Pipeline::default()
 }
 
-//@ C08 thorough 7200 to_discrete + DiscreteMatrix::score_position + scale, M=2, wildcard column -inf
+//@ C08 thorough 2130 to_discrete + DiscreteMatrix::score_position + scale, M=2, wildcard column -inf
 harness!(none, 8, c08_position_m2, position_body::<2, 0>());
 //@ C08 quick 800 to_discrete + generic u8 scoring (C=4), M=2, wildcard on the lattice
 harness!(none, 8, c08_generic_m2_wild, pipeline_body::<U4, _, 2, 1, 0>(&generic()));
-//@ C08 thorough 7200 to_discrete + AVX2 u8 scoring, M=2, window in the upper 128-bit lane (column 17)
+//@ C08 thorough 2207 to_discrete + AVX2 u8 scoring, M=2, window in the upper 128-bit lane (column 17)
 harness!(avx2, 34, c08_avx2_m2_at17, pipeline_body::<U32, _, 2, 0, 17>(&avx2()));
-//@ C08 thorough 7200 to_discrete + AVX2 u8 scoring, M=3, window at column 0
+//@ C08 extended 7200 to_discrete + AVX2 u8 scoring, M=3, window at column 0
 harness!(avx2, 34, c08_avx2_m3_at0, pipeline_body::<U32, _, 3, 0, 0>(&avx2()));
-//@ C08 thorough 7200 to_discrete + dispatcher (SSE2 arm = generic u8 kernel), M=2, window at column 5
+//@ C08 thorough 2374 to_discrete + dispatcher (SSE2 arm = generic u8 kernel), M=2, window at column 5
 harness!(avx2, 34, c08_dispatch_sse2_m2, dispatch_body::<2, 0, 5>(Dispatch::Sse2));
 //@ C08 quick 800 to_discrete + dispatcher (AVX2 arm), M=1
 harness!(avx2, 34, c08_dispatch_avx2_m1, dispatch_body::<1, 0, 30>(Dispatch::Avx2));
-//@ C08 thorough 7200 to_discrete + generic u8 scoring (C=4), M=3
+//@ C08 extended 7200 to_discrete + generic u8 scoring (C=4), M=3
 harness!(none, 8, c08_generic_m3, pipeline_body::<U4, _, 3, 0, 0>(&generic()));
-//@ C08 thorough 7200 to_discrete + generic u8 scoring (C=4), M=4
+//@ C08 extended 7200 to_discrete + generic u8 scoring (C=4), M=4
 harness!(none, 8, c08_generic_m4, pipeline_body::<U4, _, 4, 0, 0>(&generic()));
-//@ C08 thorough 7200 to_discrete + AVX2 u8 scoring, M=4, wildcard on the lattice
+//@ C08 extended 7200 to_discrete + AVX2 u8 scoring, M=4, wildcard on the lattice
 harness!(avx2, 34, c08_avx2_m4_wild, pipeline_body::<U32, _, 4, 1, 9>(&avx2()));
-//@ C08 thorough 7200 to_discrete + DiscreteMatrix::score_position, M=4, wildcard on the lattice
+//@ C08 extended 7200 to_discrete + DiscreteMatrix::score_position, M=4, wildcard on the lattice
 harness!(none, 8, c08_position_m4_wild, position_body::<4, 1>());
-//@ C08 thorough 7200 to_discrete + dispatcher (generic arm), M=3
+//@ C08 extended 7200 to_discrete + dispatcher (generic arm), M=3
 harness!(avx2, 34, c08_dispatch_generic_m3, dispatch_body::<3, 0, 12>(Dispatch::Generic));
 // --- quick tier: M = 1 on the 16-value lattice, M = 2 on the coarse 4-value lattice ---------
 //@ C08 quick 800 to_discrete + DiscreteMatrix::score_position + scale, M=1, wildcard on the lattice
